@@ -166,6 +166,13 @@ impl<'tcx> BodyCx<'tcx> {
         o
     }
 
+    fn pat_path(&self, qp: &hir::QPath<'tcx>, hid: hir::HirId) -> J {
+        match self.typeck.qpath_res(qp, hid) {
+            Res::Def(_, d) => J::s(tyj::path(self.tcx, d)),
+            other => J::s(format!("{:?}", other)),
+        }
+    }
+
     fn pat(&mut self, p: &'tcx hir::Pat<'tcx>) -> J {
         use hir::PatKind as P;
         match p.kind {
@@ -181,14 +188,22 @@ impl<'tcx> BodyCx<'tcx> {
                 ("p", J::s("tuple")),
                 ("ps", J::Arr(ps.iter().map(|x| self.pat(x)).collect())),
             ]),
-            P::TupleStruct(_, ps, _) => J::obj(vec![
+            P::TupleStruct(ref qp, ps, _) => J::obj(vec![
                 ("p", J::s("tuplestruct")),
+                ("path", self.pat_path(qp, p.hir_id)),
                 ("ps", J::Arr(ps.iter().map(|x| self.pat(x)).collect())),
             ]),
-            P::Struct(_, fs, _) => J::obj(vec![
+            P::Struct(ref qp, fs, _) => J::obj(vec![
                 ("p", J::s("struct")),
+                ("path", self.pat_path(qp, p.hir_id)),
                 ("ps", J::Arr(fs.iter().map(|f| self.pat(f.pat)).collect())),
             ]),
+            P::Expr(pe) => match pe.kind {
+                hir::PatExprKind::Path(ref qp) => {
+                    J::obj(vec![("p", J::s("path")), ("path", self.pat_path(qp, pe.hir_id))])
+                }
+                _ => J::obj(vec![("p", J::s("lit"))]),
+            },
             P::Ref(inner, ..) => J::obj(vec![("p", J::s("ref")), ("ps", J::Arr(vec![self.pat(inner)]))]),
             P::Box(inner) => J::obj(vec![("p", J::s("box")), ("ps", J::Arr(vec![self.pat(inner)]))]),
             _ => J::obj(vec![("p", J::s("other"))]),
